@@ -186,7 +186,11 @@ def check_C12(res, tier, seed, replay):
         mc(res, 'LexSpt', 'MC_LexSpt_q.cfg' if tier == 'quick' else 'MC_LexSpt_t.cfg',
            'lexicographic Dijkstra model (any heap-minimum, any relaxation order) yields exact, reversal-symmetric, sub-path-closed trees')
     res.cov['exhaustive_space'] = 'all simple labelled graphs with <= %d vertices, weights {1,2} (TLC-enumerated): %d' % (N, ne)
-    run_comp(res, tier, seed, replay, 'spt', inputs, types='double,int')
+    # stars with more than 2^8 / 2^16 vertices (vertex ids, hop counts or distances held in a narrower type wrap there)
+    fam = [('star', 257, 1), ('star', 257, 3), ('star', 65537, 1), ('star', 65538, 3), ('star2', 256, 1), ('star2', 33000, 2)]
+    fl = [vlib.graph_line(900000 + i, 0, [], 1, extra=['fam=%s' % f, 'a=%d' % a, 'b=%d' % b]) for i, (f, a, b) in enumerate(fam)]
+    run_comp(res, tier, seed, replay, 'spt', inputs, types='double,int', extra_lines=fl)
+    res.cov['large_families'] = ['%s(%d,w=%d)' % f for f in fam]
     res.cov['distinct_nontrivial'] = len({canon(g) for g, _ in inputs if gens.csd(g) >= 1})
     res.cov['rule'] = 'SPTree rooted at every vertex of every input; non-trivial = distinct graph with a cycle (alternative paths exist)'
 
